@@ -12,7 +12,7 @@ import time
 VERIF = os.path.dirname(os.path.dirname(os.path.abspath(__file__)))
 REPO = os.environ.get("JAQ_REPO", "/repo")
 CACHE = os.path.join(VERIF, ".cache")
-EVIDENCE = os.path.join(VERIF, "evidence")
+EVIDENCE = os.environ.get("VERIF_EVIDENCE_DIR") or os.path.join(VERIF, "evidence")
 FIRST_PARTY = ["jaq_core", "jaq_std", "jaq_json", "jaq_fmts", "jaq_all", "jaq"]
 DRIVER = os.path.join(VERIF, "driver", "target", "release", "jaqlint")
 
@@ -102,7 +102,7 @@ def facts_dir(config="default", cargo_args=None, rustflags=None, repo=None):
             shutil.rmtree(d)
         # drop old cache entries (keep disk usage bounded)
         entries = sorted((os.path.getmtime(os.path.join(CACHE, e)), e) for e in os.listdir(CACHE) if os.path.isdir(os.path.join(CACHE, e)))
-        for _, e in entries[:-6]:
+        for _, e in entries[:-14]:
             shutil.rmtree(os.path.join(CACHE, e), ignore_errors=True)
         tmp = d + ".tmp"
         shutil.rmtree(tmp, ignore_errors=True)
@@ -187,6 +187,28 @@ class Facts:
             if b["def"] == path:
                 return b
         return None
+
+    def mir_find(self, rx, crate=None):
+        """Bodies whose def path matches the regex (anchors are regexes so that renaming a generic
+        parameter does not lose them)."""
+        import re
+        r = re.compile(rx)
+        out = []
+        for c in ([crate] if crate else self.crates):
+            for b in self.mir(c):
+                if r.search(b["def"]):
+                    out.append(b)
+        return out
+
+    def hir_find(self, rx, crate=None):
+        import re
+        r = re.compile(rx)
+        out = []
+        for c in ([crate] if crate else self.crates):
+            for b in self.hir(c):
+                if r.search(b["def"]):
+                    out.append(b)
+        return out
 
     def mir_closures_of(self, path):
         crate = path.split("::")[0]
